@@ -21,7 +21,7 @@ LOOKALIKES = [
     '-', '--', 'a-', '-a', '[-]', '[]', '][', ']', '[', '[[', ']]', '[]]', '[^]', '[\\]', '{', '}', '{}', '{a}',
     '{1', '1}', '{,}', 'a|', '|a', '|', '||', 'a||b', '/', 'a/b', '//', '/a/', 'é', 'aé', 'éa', 'ß', 'İi', '€5',
     '\x00', 'a\x00b', '\x7f', ' ', '\U0001F600', 'a\U0001F600', 'AbC', 'abc', 'ABC', 'a1_', '__', '0', '007',
-    '(?#c)', '(?(1)a|b)', '(?(n)a)', '(?>a)', 'a*+', 'a++', '(?s:.)', '(?-i:a)', '\\N{DASH}', '\\x41', '\\u0041',
+    ':-)', '::std', ':', '?:', ':?', ':(', 'a:b', '(?#c)', '(?(1)a|b)', '(?(n)a)', '(?>a)', 'a*+', 'a++', '(?s:.)', '(?-i:a)', '\\N{DASH}', '\\x41', '\\u0041',
     '\\101', '\\0', '\\g<1>', '&&', '~~', '[[:alpha:]]', '[a&&b]', '(*)', '(+)', '(?)', 'a{', 'a}', '(?', '(?:', '(?P',
 ]
 
@@ -174,6 +174,15 @@ def positions(s, forms=('c', 'm', 'o')):
         for lk in ('fol', 'nfol', 'pre', 'npre', 'lenc', 'nlenc'):
             add(lk + '.match/' + f, OPN(lk, lit, Z), f)
             add(lk + '.assertion/' + f, OPN(lk, Z, lit), f)
+    for f in ('c', 'm'):
+        add('capture(group)/' + f, OPN('cap', OPN('grp', lit)), f)
+        add('capture.named(group)/' + f, OPN('cap', OPN('grp', lit), name='nm'), f)
+        add('group(capture)/' + f, OPN('grp', OPN('cap', lit)), f)
+        add('group.ci(capture.named)/' + f, OPN('grp', OPN('cap', lit, name='nm'), ci=True), f)
+        add('capture(group.ci)/' + f, OPN('cap', OPN('grp', lit, ci=True)), f)
+        add('group(group.ci)/' + f, OPN('grp', OPN('grp', lit, ci=True)), f)
+        add('capture.named(capture.named)/' + f, OPN('cap', OPN('cap', lit, name='in'), name='out'), f)
+        add('optional(group)/' + f, OPN('opt', OPN('grp', lit)), f)
     add('mul', OPN('ex', lit, n=3), 'o')
     add('rmul', OPN('ex', lit, n=3, rmul=True), 'o')
     add('Conditional.pre1', OPN('cat', OPN('opt', OPN('cap', Z, name='cn')), OPN('cond', lit, name='cn')), 'c')
@@ -189,6 +198,33 @@ def positions(s, forms=('c', 'm', 'o')):
     add('FollowedBy.assertion2', OPN('fol', Z, Z, lit), 'c')
     add('NotPrecededBy.assertion2', OPN('npre', Z, Z, lit), 'c')
     return out
+
+
+TWINS = None
+
+
+def twins():
+    """(program node P, text of str(P)): a plain string that *looks like* its neighbour's regex must still be literal"""
+    return [(CLS('AnyDigit'), '\\d'), (CLS('Any'), '.'), (CLS('AnyLowercaseLetter'), '[a-z]'), (CLS('AnyButDigit'), '\\D'),
+            (OPN('alt', L('a'), L('b')), 'a|b'), (OPN('opt', L('x')), 'x?'), (OPN('plus', L('b')), 'b+'), (OPN('star', L('c')), 'c*'),
+            (OPN('q', L('c'), n=1, m=3), 'c{1,3}'), (OPN('ex', L('a'), n=2), 'a{2}'), (OPN('alt', L('d'), L('ef')), 'd|ef'),
+            (OPN('cap', L('a')), '(a)'), (OPN('grp', L('ab')), '(?:ab)'), (OPN('male', L('a')), 'a$'), (OPN('mas', L('a')), '\\Aa'),
+            (OPN('mals', L('a')), '^a'), (OPN('fol', L('a'), L('b')), 'a(?=b)'), ({'o': 'wb'}, '\\b'), (TOK('Dollar'), '\\$'),
+            (OPN('cap', L('a'), name='n'), '(?P<n>a)'), (FROM('a', 'b', 'c'), '[a-c]'), (OPN('opt', L('ab')), '(?:ab)?')]
+
+
+def twin_programs():
+    """programs in which a literal s sits next to a pattern whose regex source is s; `hole` is s"""
+    Z = L('z')
+    for P, s in twins():
+        lit = L(s)
+        progs = [('c', OPN('alt', P, lit)), ('c', OPN('alt', lit, P)), ('m', OPN('alt', P, lit)), ('c', OPN('alt', Z, P, lit)), ('c', OPN('alt', lit, Z, P)),
+                 ('c', OPN('cat', P, lit)), ('o', OPN('cat', lit, P)), ('c', OPN('enc', P, lit)), ('c', OPN('enc', lit, P)),
+                 ('c', OPN('fol', Z, lit, P)), ('c', OPN('fol', Z, P, lit)), ('c', OPN('nfol', Z, lit, P)), ('c', OPN('nfol', Z, P, lit)),
+                 ('c', OPN('pre', Z, lit, P)), ('c', OPN('npre', Z, lit, P)), ('c', OPN('npre', Z, P, lit)), ('c', OPN('lenc', Z, lit, P)),
+                 ('c', OPN('nlenc', Z, lit, P)), ('c', OPN('nlenc', Z, P, lit)), ('m', OPN('npre', Z, lit, P))]
+        for f, pr in progs:
+            yield {'prog': pr, 'form': f, 'w': 'Wtwin', 'hole': s, 'pos': 'twin'}
 
 
 # ---------------------------------------------------------------------------- W3 leaf basis
@@ -215,6 +251,8 @@ def leaf_basis(reduced=False):
         {'o': 'bref', 'r': 1}, {'o': 'bref', 'r': 'g1'}, L('0'), L('12'),
         OPN('cond', L('a'), name='g1'), OPN('cond', L('a'), L('bc'), name='g1'),
         RAW('a|b'), RAW('(?:ab)+'), RAW('[ab]c'),
+        OPN('cat', OPN('cap', OPN('cat', L('a'), FROM('(', 'x'))), OPN('cap', OPN('cat', L('b'), FROM(')', 'y')))),
+        OPN('cat', OPN('grp', FROM('(')), OPN('grp', FROM(')'))), BTW('(', '\\'), FROM('(', '\\'), OPN('cat', L('a\\'), FROM('^', 'x', ')', neg=True)),
     ]
     if reduced:
         keep = [0, 1, 3, 5, 6, 9, 11, 12, 15, 17, 24, 25, 29, 30, 31, 37, 40, 43, 46, 48, 50, 54, 55, 56, 57, 60,
@@ -479,6 +517,9 @@ def quant_operands():
             RAW('^a'), RAW('a|b'), RAW('(?:ab)+'),
             OPN('cat', OPN('cap', L('a'), name='g1'), {'o': 'bref', 'r': 'g1'}),
             OPN('opt', OPN('opt', L('a'))), OPN('star', OPN('plus', CLS('AnyDigit'))),
+            OPN('cat', OPN('cap', OPN('cat', L('a'), FROM('(', 'x'))), OPN('cap', OPN('cat', L('b'), FROM(')', 'y')))),
+            OPN('cat', OPN('grp', FROM('(')), OPN('grp', FROM(')'))), OPN('cap', BTW('(', '\\')), OPN('star', L('a')), OPN('star', CLS('Any')),
+            OPN('plus', L('a')), OPN('star', OPN('cap', OPN('alt', L('a'), L('b')))), L('\\\\'),
             ]
 
 
